@@ -5,10 +5,15 @@ import RV.Lemmas.CtlBlueGreen
 
 Every statement quantifies over every abstract world (workload with any settings / annotations / status, any list
 of ReplicaSets, any lists of HPAs), every BatchRelease (UID, plan, current batch, partition) and every API fault of
-the call (k-th write fails, Get fails, HPA Lists fail).  `…_partial` theorems carry the explicit guard of a known
-finding as hypothesis; the matching `…_full_FALSE` theorem shows the full-strength statement fails on the unchanged
-code.  Model: `RV.CtlBlueGreen`; oracles: `RV.Oracle.CtlBlueGreen` (the same `Bool` functions the driver evaluates on
-the implementation's output).
+the call (k-th write fails, Get fails, HPA Lists fail).  The model (`RV.CtlBlueGreen`) is the code after the repairs
+4f836ab (checked type assertions in the HPA helper), 5ba1baa (a failed HPA List is an error), 7d83f2b (a saved
+`minReadySeconds` of 0 is kept) and 9aad3d8 (the Deployment `Finalize` keeps the saved annotation until it is done):
+the theorems that used to carry the guards `hpaNoApiVersion`, `hpaListFault`, `savedMinReadyZero` and the retry part
+of `deployFinalizeRetry` are stated at full strength.  Three findings stay open; their `…_partial` theorems carry the
+guard as hypothesis and a `…_full_FALSE` theorem shows the full-strength statement fails on the code:
+`deployFinalizeRetry` (what is left: a Deployment without saved annotation is neither patched nor really waited
+for), `csPartitionKept`, `origRecreate`.  Oracles: `RV.Oracle.CtlBlueGreen` (the same `Bool` functions the driver
+evaluates on the implementation's output); proofs: `RV.Lemmas.CtlBlueGreen`.
 -/
 namespace RV.Props.CtlBlueGreen
 open RV.Arith IntOrPct RV.CtlBlueGreen RV.Oracle.CtlBlueGreen
@@ -17,12 +22,11 @@ open RV.Arith IntOrPct RV.CtlBlueGreen RV.Oracle.CtlBlueGreen
 
 /-- **C05 (inductive step)** — every `Initialize`, `UpgradeBatch` and `Finalize`, under every API fault, preserves
     the invariant "the saved annotation (or, when there is none, the workload itself) holds the user's original
-    settings" — for `Initialize` outside the known finding `savedMinReadyZero`. -/
-theorem inv_preserved_partial (kind : Kind) (op : Op) (o : Orig) (w : World) (br : BR) (f : Fault) (out : CallOut)
-    (h : call kind op w br f = .val out)
-    (hG : op = .init → ∀ wl, w.wl = some wl → gSavedZero br wl = false) :
+    settings" — including an `Initialize` by a BatchRelease that does not control the workload yet. -/
+theorem inv_preserved (kind : Kind) (op : Op) (o : Orig) (w : World) (br : BR) (f : Fault) (out : CallOut)
+    (h : call kind op w br f = .val out) :
     invPreserved kind o w out = true :=
-  RV.Lemmas.CtlBlueGreen.inv_preserved_partial kind op o w br f out h hG
+  RV.Lemmas.CtlBlueGreen.inv_preserved kind op o w br f out h
 
 /-- **C05 (round trip, first half)** — `Initialize` of a workload that carries no saved annotation records exactly
     the workload's own minReadySeconds / maxSurge / maxUnavailable / progressDeadlineSeconds (absent fields with
@@ -47,13 +51,13 @@ theorem finalize_restores_type_partial (kind : Kind) (o : Orig) (w : World) (br 
     finalizeRestoresType kind o w br out = true :=
   RV.Lemmas.CtlBlueGreen.finalize_restores_type_partial kind o w br f out h hG
 
-/-- **C05 (HPA, partial)** — … and the HPA that `findHPAForWorkload` associates with the workload targets it again
-    (its `scaleTargetRef.name` carries no disabling suffix), outside the known finding `hpaListFault` (a List of
-    HPAs failing in that very call is swallowed). -/
-theorem finalize_restores_hpa_partial (kind : Kind) (w : World) (br : BR) (f : Fault) (out : CallOut)
-    (h : cpFinalize kind w br f = .val out) (hG : gListFault f = false) :
+/-- **C05 (HPA, full strength)** — … and the HPA that `lookupHPAForWorkload` associates with the workload targets it
+    again (its `scaleTargetRef.name` carries no disabling suffix) — under every fault, List faults included: a
+    `Finalize` whose HPA lookup fails does not report success. -/
+theorem finalize_restores_hpa (kind : Kind) (w : World) (br : BR) (f : Fault) (out : CallOut)
+    (h : cpFinalize kind w br f = .val out) :
     finalizeRestoresHPA w br out = true :=
-  RV.Lemmas.CtlBlueGreen.finalize_restores_hpa_partial kind w br f out h hG
+  RV.Lemmas.CtlBlueGreen.finalize_restores_hpa kind w br f out h
 
 /-- **C05 (release, partial)** — … and the workload is handed back to its own controller (Deployment un-paused and
     without the stable-revision label; CloneSet without partition), outside the known findings
@@ -70,60 +74,71 @@ theorem inv_fresh (kind : Kind) (w : World) (wl : Workload) (hw : w.wl = some wl
     (hs : wl.saved = .none) (hc : wl.ctl = .none) : inv kind (origOf kind wl) w = true :=
   RV.Lemmas.CtlBlueGreen.inv_fresh kind w wl hw hs hc
 
-/-- **C05 (invariant over histories)** — along every finite history of control-plane calls (any operation order,
-    any plan / batch / partition / BatchRelease UID, any API fault in any attempt), status changes and scalings,
-    the release invariant holds at every point — outside the known finding `savedMinReadyZero`. -/
-theorem inv_run_partial (kind : Kind) (o : Orig) (evs : List Ev) (w w' : World)
-    (hi : inv kind o w = true) (hg : guardFree kind w evs = true) (hr : run kind w evs = some w') :
+/-- **C05 (invariant over histories, full strength)** — along every finite history of control-plane calls (any
+    operation order, any plan / batch / partition / BatchRelease UID, any API fault in any attempt), status changes
+    and scalings, the release invariant holds at every point. -/
+theorem inv_run (kind : Kind) (o : Orig) (evs : List Ev) (w w' : World)
+    (hi : inv kind o w = true) (hr : run kind w evs = some w') :
     inv kind o w' = true :=
-  RV.Lemmas.CtlBlueGreen.inv_run_partial kind o evs w w' hi hg hr
+  RV.Lemmas.CtlBlueGreen.inv_run kind o evs w w' hi hr
 
 /-- **C05 `finalize_restores_original`** — take any workload without rollout annotations, any HPAs and
-    ReplicaSets; run any history `initialize ; (upgradeBatch | initialize | finalize)*` in any order, with API
-    faults after any write of any attempt, status changes and scalings in between (and no `Initialize` inside the
-    known finding `savedMinReadyZero`).  Whenever afterwards a `Finalize` — under any fault — reports success with
-    `batchPartition` cleared, the workload has exactly the minReadySeconds, maxSurge, maxUnavailable and
-    progressDeadlineSeconds it started with and neither the saved-settings nor the control annotation. -/
+    ReplicaSets; run any history `initialize ; (upgradeBatch | initialize | finalize)*` in any order, by any
+    BatchReleases, with API faults after any write of any attempt, status changes and scalings in between.
+    Whenever afterwards a `Finalize` — under any fault — reports success with `batchPartition` cleared, the workload
+    has exactly the minReadySeconds, maxSurge, maxUnavailable and progressDeadlineSeconds it started with and
+    neither the saved-settings nor the control annotation. -/
 theorem finalize_restores_original (kind : Kind) (w0 : World) (wl0 : Workload) (evs : List Ev) (w : World)
     (br : BR) (f : Fault) (out : CallOut)
     (hw0 : w0.wl = some wl0) (hs0 : wl0.saved = .none) (hc0 : wl0.ctl = .none)
-    (hg : guardFree kind w0 evs = true) (hr : run kind w0 evs = some w)
+    (hr : run kind w0 evs = some w)
     (hfin : cpFinalize kind w br f = .val out) (hd : finalizeDone w br out = true) :
     ∃ wl', out.world.wl = some wl' ∧ wl'.saved = .none ∧ wl'.ctl = .none ∧
       effSetting kind wl' = effSetting kind wl0 :=
-  RV.Lemmas.CtlBlueGreen.finalize_restores_original kind w0 wl0 evs w br f out hw0 hs0 hc0 hg hr hfin hd
+  RV.Lemmas.CtlBlueGreen.finalize_restores_original kind w0 wl0 evs w br f out hw0 hs0 hc0 hr hfin hd
 
 /-- **C05 (the retry completes)** — from every world that satisfies the release invariant — in particular after any
     number of earlier attempts that were cut short by faults — one undisturbed `Finalize` (with `batchPartition`
-    cleared, no HPA without `apiVersion` in the namespace) on a workload whose pods are all updated and ready
-    with respect to the *original* settings reports success; by `finalize_restores_original_step` the workload
-    then has its original settings. -/
+    cleared) on a workload whose pods are all updated and ready with respect to the *original* settings reports
+    success; by `finalize_restores_original_step` the workload then has its original settings. -/
 theorem finalize_completes (kind : Kind) (o : Orig) (w : World) (br : BR) (wl : Workload)
     (hi : inv kind o w = true) (hw : w.wl = some wl) (hR : wl.replicas.isSome = true) (hp : br.partitioned = false)
-    (hH : gNoApiVersion w = false) (hready : readyNow kind (finalizePatch kind o.setting wl) = true) :
+    (hready : readyNow kind (finalizePatch kind o.setting wl) = true) :
     ∃ out, cpFinalize kind w br noFault = .val out ∧ out.res = .ok :=
-  RV.Lemmas.CtlBlueGreen.finalize_completes kind o w br wl hi hw hR hp hH hready
+  RV.Lemmas.CtlBlueGreen.finalize_completes kind o w br wl hi hw hR hp hready
+
+/-- the same as a run-time oracle (evaluated on the implementation's output for every undisturbed `Finalize` of a walk) -/
+theorem finalize_completes_oracle (kind : Kind) (o : Orig) (w : World) (br : BR) (f : Fault) (out : CallOut)
+    (h : cpFinalize kind w br f = .val out) : finalizeCompletes kind o w br f out = true :=
+  RV.Lemmas.CtlBlueGreen.finalize_completes_oracle kind o w br f out h
+
+/-- **C05 (the restoring patch releases)** — whenever `Finalize` changes a Deployment that carries a saved annotation, the
+    Deployment is un-paused afterwards and carries neither the stable-revision label nor the control-info — on every
+    attempt, whether or not the wait then passes. -/
+theorem finalize_patch_releases (kind : Kind) (w : World) (br : BR) (f : Fault) (out : CallOut)
+    (h : cpFinalize kind w br f = .val out) : finalizePatchReleases kind w out = true :=
+  RV.Lemmas.CtlBlueGreen.finalize_patch_releases kind w br f out h
 
 /-! ## C06 / C11 — fault-safety of the calls -/
 
 /-- **C06 / C11 (partial)** — a `Finalize` that reports success (with `batchPartition` cleared, on an existing
     workload) has evaluated its wait condition — every pod updated and ready, `maxUnavailable` respected — on the
-    workload as it is after the call; outside the known finding `deployFinalizeRetry` (the Deployment control on an
-    object without saved annotation evaluates the wait on an empty object). -/
+    workload as it is after the call, on every attempt of a release (the Deployment keeps its saved annotation
+    until then); outside what is left of the known finding `deployFinalizeRetry`: a Deployment *without* saved
+    annotation (never initialised, or already completely finalised) is waited for on an empty object. -/
 theorem finalize_done_means_ready_partial (kind : Kind) (w : World) (br : BR) (f : Fault) (out : CallOut)
     (h : cpFinalize kind w br f = .val out)
     (hG : ∀ wl, w.wl = some wl → gRestoredDeploy kind wl = false) :
     finalizeDoneMeansReady kind w br out = true :=
   RV.Lemmas.CtlBlueGreen.finalize_done_means_ready_partial kind w br f out h hG
 
-/-- **C06 (partial)** — `InitOriginalSetting` never overwrites what an earlier `Initialize` saved: whatever the call
-    does, every field present in the saved annotation — and its `minReadySeconds` — is still there afterwards;
-    outside the known finding `savedMinReadyZero`. -/
-theorem init_keeps_saved_partial (kind : Kind) (w : World) (br : BR) (f : Fault) (out : CallOut)
-    (h : cpInitialize kind w br f = .val out)
-    (hG : ∀ wl, w.wl = some wl → gSavedZero br wl = false) :
+/-- **C06 (full strength)** — `InitOriginalSetting` never overwrites what an earlier `Initialize` saved: whatever the
+    call does and whoever calls it, every field present in the saved annotation — and its `minReadySeconds`, `0`
+    included — is still there afterwards. -/
+theorem init_keeps_saved (kind : Kind) (w : World) (br : BR) (f : Fault) (out : CallOut)
+    (h : cpInitialize kind w br f = .val out) :
     initKeepsSaved w out = true :=
-  RV.Lemmas.CtlBlueGreen.init_keeps_saved_partial kind w br f out h hG
+  RV.Lemmas.CtlBlueGreen.init_keeps_saved kind w br f out h
 
 /-- **C06** — for every call, world and fault: a call that reports no successful write has left the whole object
     store (workload, ReplicaSets, every HPA) exactly as it was. -/
@@ -131,26 +146,23 @@ theorem no_write_no_change (kind : Kind) (op : Op) (w : World) (br : BR) (f : Fa
     (h : call kind op w br f = .val out) : noWriteNoChange w out = true :=
   RV.Lemmas.CtlBlueGreen.no_write_no_change kind op w br f out h
 
-/-- **C06 (convergence, partial)** — for each of the three calls, every world and every write / Get fault: if an
-    attempt is cut short by the fault and the call is simply repeated (as the next reconcile does), the object
-    store ends exactly where an undisturbed call would have put it, and the repeated call reports what the
-    undisturbed one reports.  Outside the known findings `hpaListFault` (a failed List of HPAs is mistaken for
-    "no HPA") and `deployFinalizeRetry` (the Deployment `Finalize` whose wait failed after its patch). -/
-theorem retry_converges_partial (kind : Kind) (op : Op) (w : World) (br : BR) (f : Fault) (o1 o2 o3 : CallOut)
+/-- **C06 (convergence, full strength)** — for each of the three calls, every world and every fault (write, Get and
+    List faults): if an attempt is cut short and the call is simply repeated (as the next reconcile does), the
+    object store ends exactly where an undisturbed call would have put it, and the repeated call reports what the
+    undisturbed one reports. -/
+theorem retry_converges (kind : Kind) (op : Op) (w : World) (br : BR) (f : Fault) (o1 o2 o3 : CallOut)
     (h1 : call kind op w br f = .val o1) (h2 : call kind op o1.world br noFault = .val o2)
-    (h3 : call kind op w br noFault = .val o3)
-    (hL : gListFault f = false) (hG : gFinalizeWaitFails kind op w br = false) :
+    (h3 : call kind op w br noFault = .val o3) :
     retryConverges o2 o3 = true :=
-  RV.Lemmas.CtlBlueGreen.retry_converges_partial kind op w br f o1 o2 o3 h1 h2 h3 hL hG
+  RV.Lemmas.CtlBlueGreen.retry_converges kind op w br f o1 o2 o3 h1 h2 h3
 
-/-- **C06 (no step twice with additional effect, partial)** — repeating an undisturbed call changes nothing and
+/-- **C06 (no step twice with additional effect, full strength)** — repeating an undisturbed call changes nothing and
     reports the same; after a success the repetition issues no write at all, except that `UpgradeBatch` re-sends its
-    (identical) patch when the batch is exactly `1`.  Outside the known finding `deployFinalizeRetry`. -/
-theorem idempotent_partial (kind : Kind) (op : Op) (w : World) (br : BR) (o3 o4 : CallOut)
-    (h3 : call kind op w br noFault = .val o3) (h4 : call kind op o3.world br noFault = .val o4)
-    (hG : gFinalizeWaitFails kind op w br = false) :
+    (identical) patch when the batch is exactly `1`. -/
+theorem idempotent_calls (kind : Kind) (op : Op) (w : World) (br : BR) (o3 o4 : CallOut)
+    (h3 : call kind op w br noFault = .val o3) (h4 : call kind op o3.world br noFault = .val o4) :
     idempotent op br o3 o4 = true :=
-  RV.Lemmas.CtlBlueGreen.idempotent_partial kind op w br o3 o4 h3 h4 hG
+  RV.Lemmas.CtlBlueGreen.idempotent_calls kind op w br o3 o4 h3 h4
 
 /-! ## C01 — exposure of the new revision -/
 
@@ -199,24 +211,25 @@ theorem init_installs_hold (kind : Kind) (w : World) (br : BR) (f : Fault) (out 
     (h : cpInitialize kind w br f = .val out) : initInstallsHold w br out = true :=
   RV.Lemmas.CtlBlueGreen.init_installs_hold kind w br f out h
 
-/-- **C01 (`Initialize` disables the HPA, partial)** — after a successful `Initialize` that takes control, the HPA that
-    `findHPAForWorkload` associates with the workload carries the disabling suffix, so it cannot scale the workload
-    during the release; outside the known finding `hpaListFault`. -/
-theorem init_disables_hpa_partial (kind : Kind) (w : World) (br : BR) (f : Fault) (out : CallOut)
-    (h : cpInitialize kind w br f = .val out) (hG : gListFault f = false) : initDisablesHPA w br out = true :=
-  RV.Lemmas.CtlBlueGreen.init_disables_hpa_partial kind w br f out h hG
+/-- **C01 (`Initialize` disables the HPA, full strength)** — after a successful `Initialize` that takes control, the HPA
+    that `lookupHPAForWorkload` associates with the workload carries the disabling suffix, so it cannot scale the
+    workload during the release — under every fault: an `Initialize` whose HPA lookup fails does not succeed. -/
+theorem init_disables_hpa (kind : Kind) (w : World) (br : BR) (f : Fault) (out : CallOut)
+    (h : cpInitialize kind w br f = .val out) : initDisablesHPA w br out = true :=
+  RV.Lemmas.CtlBlueGreen.init_disables_hpa kind w br f out h
 
 /-! ## C09 — panics -/
 
-/-- **C09 (partial)** — for every world, BatchRelease and fault: none of the three calls panics, unless the
-    workload has no `spec.replicas`, or `UpgradeBatch` is asked for a batch outside the plan, or (known finding
-    `hpaNoApiVersion`) some HPA of the namespace has a `scaleTargetRef` without `apiVersion`. -/
-theorem no_panic_partial (kind : Kind) (op : Op) (w : World) (br : BR) (f : Fault)
-    (hA : panicAllowed op w br = false) (hG : gNoApiVersion w = false) :
+/-- **C09 (full strength for the HPA helper)** — for every world — any HPAs, with or without `apiVersion` in their
+    `scaleTargetRef` —, every BatchRelease and every fault: none of the three calls panics, unless the workload has no
+    `spec.replicas` (the API servers default it) or `UpgradeBatch` is asked for a batch outside the plan (the
+    executor checks the index first). -/
+theorem no_panic (kind : Kind) (op : Op) (w : World) (br : BR) (f : Fault)
+    (hA : panicAllowed op w br = false) :
     ∃ out, call kind op w br f = .val out :=
-  RV.Lemmas.CtlBlueGreen.no_panic_partial kind op w br f hA hG
+  RV.Lemmas.CtlBlueGreen.no_panic kind op w br f hA
 
-/-! ## witnesses: the full-strength statements are false on the unchanged code -/
+/-! ## witnesses: the full-strength statements of the open findings are false on the code -/
 
 def st (r rd u a ur : Int) : Status := { replicas := r, ready := rd, updated := u, available := a, updatedReady := ur }
 
@@ -224,7 +237,7 @@ def st (r rd u a ur : Int) : Status := { replicas := r, ready := rd, updated := 
 def userSetting : Setting :=
   { maxUnavailable := some (pct 25), maxSurge := some (pct 25), minReadySeconds := 0, progressDeadlineSeconds := some 600 }
 
-/-- a Deployment as `Initialize` of BatchRelease 0 left it (10 replicas, all pods ready, 3 updated) -/
+/-- a Deployment as `Initialize` of BatchRelease 0 left it (10 replicas, 10 of 13 pods available, 3 updated) -/
 def wlInitialised : Workload :=
   { replicas := some 10, deleting := false, paused := false, minReadySeconds := maxReady,
     progressDeadlineSeconds := some maxProgress, stype := .expected,
@@ -241,15 +254,6 @@ def outOf : Out CallOut → CallOut
   | .val o => o
   | .panic => ⟨default, .err, 0, none⟩
 
-/-- **`savedMinReadyZero`** — BatchRelease 1 initialises a workload that still carries the settings BatchRelease 0
-    saved (`minReadySeconds: 0`): the saved value becomes `MaxReadySeconds`, which `Finalize` will later "restore". -/
-theorem init_keeps_saved_full_FALSE :
-    let w := worldOf wlInitialised [] []
-    gSavedZero (brOf 1) wlInitialised = true ∧
-    initKeepsSaved w (outOf (cpInitialize .deployment w (brOf 1) noFault)) = false ∧
-    invPreserved .deployment ⟨userSetting, .expected⟩ w (outOf (cpInitialize .deployment w (brOf 1) noFault)) = false := by
-  decide
-
 /-- **`origRecreate`** — a Deployment whose strategy type was `Recreate` (here: "not RollingUpdate"): `Initialize`
     has set the type to `RollingUpdate`, and a successful `Finalize` leaves it there. -/
 theorem finalize_restores_type_full_FALSE :
@@ -260,34 +264,38 @@ theorem finalize_restores_type_full_FALSE :
     finalizeRestoresType .deployment o w (brOf 0) (outOf (cpFinalize .deployment w (brOf 0) noFault)) = false := by
   decide
 
-/-- the same through a whole history: fresh `Recreate` Deployment ; `Initialize` ; `Finalize` — the type is not back -/
 def wlRecreate : Workload :=
   { wlInitialised with
     saved := .none, ctl := .none, stype := .other, ru := none, minReadySeconds := 0,
     progressDeadlineSeconds := some 600, paused := true, status := st 10 10 10 10 0 }
 
+/-- the same through a whole history: fresh `Recreate` Deployment ; `Initialize` ; `Finalize` — the type is not back -/
 example :
     (run .deployment (worldOf wlRecreate [] []) [.call .init (brOf 0) noFault, .call .fin (brOf 0) noFault]).map
       (fun w => w.wl.map (fun wl => (wl.stype, wl.saved, wl.paused))) = some (some (SType.expected, Saved.none, false)) := by
   decide
 
-/-- **`hpaListFault`** — `Finalize` on a restored Deployment while the List of `autoscaling/v1` HPAs fails: it reports
-    success and the HPA keeps pointing at `wl-DisableByRollout`. -/
-theorem finalize_restores_hpa_full_FALSE :
-    let wl := { wlInitialised with saved := .none, ctl := .none, status := st 10 10 10 10 0 }
-    let w := worldOf wl [] [theHPA 1]
-    let f : Fault := { noFault with listV1 := true }
-    gListFault f = true ∧
-    finalizeRestoresHPA w (brOf 0) (outOf (cpFinalize .deployment w (brOf 0) f)) = false := by
+/-- a Deployment that was paused by the webhook but never initialised; 3 of 10 pods updated -/
+def wlNeverInitialised : Workload :=
+  { wlInitialised with
+    saved := .none, ctl := .none, paused := true, minReadySeconds := 0, progressDeadlineSeconds := some 600,
+    ru := some ⟨some (pct 25), some (pct 25)⟩, status := st 10 10 3 10 0 }
+
+/-- **`deployFinalizeRetry`** (release) — `Finalize` of a Deployment that was never initialised: success is
+    reported and the Deployment stays paused, stable-revision label included. -/
+theorem finalize_releases_full_FALSE_deployment :
+    let w := worldOf wlNeverInitialised [] []
+    gRestoredDeploy .deployment wlNeverInitialised = true ∧
+    finalizeReleases .deployment w (brOf 0) (outOf (cpFinalize .deployment w (brOf 0) noFault)) = false := by
   decide
 
-/-- **`deployFinalizeRetry`** (release) — `Finalize` of a Deployment that was paused by the webhook but never
-    initialised: success is reported and the Deployment stays paused, stable-revision label included. -/
-theorem finalize_releases_full_FALSE_deployment :
-    let wl := { wlInitialised with saved := .none, ctl := .none, paused := true, status := st 10 10 10 10 0 }
-    let w := worldOf wl [] []
-    gRestoredDeploy .deployment wl = true ∧
-    finalizeReleases .deployment w (brOf 0) (outOf (cpFinalize .deployment w (brOf 0) noFault)) = false := by
+/-- **`deployFinalizeRetry`** (wait) — … and the success is reported with 3 of 10 pods updated: the wait ran on an
+    empty object. -/
+theorem finalize_done_means_ready_full_FALSE :
+    let w := worldOf wlNeverInitialised [] []
+    gRestoredDeploy .deployment wlNeverInitialised = true ∧
+    (outOf (cpFinalize .deployment w (brOf 0) noFault)).res = .ok ∧
+    finalizeDoneMeansReady .deployment w (brOf 0) (outOf (cpFinalize .deployment w (brOf 0) noFault)) = false := by
   decide
 
 def wlCloneSet : Workload :=
@@ -303,26 +311,34 @@ theorem finalize_releases_full_FALSE_cloneSet :
     finalizeReleases .cloneSet w (brOf 0) (outOf (cpFinalize .cloneSet w (brOf 0) noFault)) = false := by
   decide
 
-/-- **`deployFinalizeRetry`** (wait) — the second `Finalize` attempt on a Deployment: 10 of 13 pods available, 3 updated —
-    the first attempt restored the settings and asked for a retry; the second reports success. -/
-theorem finalize_done_means_ready_full_FALSE :
-    let w := worldOf wlInitialised [] []
+/-! ## regression: the repaired defects on their former witnesses (tests on literals) -/
+
+/-- 9aad3d8: the second `Finalize` attempt on a Deployment (10 of 13 pods available, 3 updated) asks for a retry again —
+    the saved annotation is still there — and repeating is idempotent -/
+example :
+    let w := worldOf wlInitialised [] [theHPA 1]
     let o1 := outOf (cpFinalize .deployment w (brOf 0) noFault)
     let o2 := outOf (cpFinalize .deployment o1.world (brOf 0) noFault)
-    o1.res = .retry ∧ o2.res = .ok ∧
-    (match o1.world.wl with
-     | some wl1 => gRestoredDeploy .deployment wl1
-     | none => false) = true ∧
-    finalizeDoneMeansReady .deployment o1.world (brOf 0) o2 = false := by
+    o1.res = .retry ∧ o2.res = .retry ∧ o2.world = o1.world ∧ o1.world.hpaV1 = [theHPA 1] ∧
+    (o1.world.wl.map (·.saved)) = some (Saved.some userSetting) := by
   decide
 
-/-- … hence repeating the call does not end where the undisturbed call ended, and is not idempotent -/
-theorem retry_converges_full_FALSE_finalize :
-    let w := worldOf wlInitialised [] [theHPA 1]
-    let o3 := outOf (cpFinalize .deployment w (brOf 0) noFault)
-    let o4 := outOf (cpFinalize .deployment o3.world (brOf 0) noFault)
-    gFinalizeWaitFails .deployment .fin w (brOf 0) = true ∧
-    retryConverges o4 o3 = false ∧ idempotent .fin (brOf 0) o3 o4 = false := by
+/-- … and once the pods are updated and ready it completes: settings restored, annotation gone, HPA enabled -/
+example :
+    let w := worldOf { wlInitialised with status := st 10 10 10 10 0 } [] [theHPA 1]
+    let o := outOf (cpFinalize .deployment w (brOf 0) noFault)
+    o.res = .ok ∧ o.writes = 3 ∧ o.world.hpaV1 = [theHPA 0] ∧
+    (o.world.wl.map (fun wl => (wl.saved, wl.ctl, wl.minReadySeconds, ruSurge wl.ru))) =
+      some (Saved.none, Ctl.none, 0, some (pct 25)) := by
+  decide
+
+/-- 7d83f2b: BatchRelease 1 initialises a workload that still carries the settings BatchRelease 0 saved
+    (`minReadySeconds: 0`): the saved value stays `0` -/
+example :
+    let w := worldOf wlInitialised [] []
+    let o := outOf (cpInitialize .deployment w (brOf 1) noFault)
+    o.res = .ok ∧ (o.world.wl.map (·.saved)) = some (Saved.some userSetting) ∧
+    (o.world.wl.map (·.ctl)) = some (Ctl.uid 1) := by
   decide
 
 def wlUser : Workload :=
@@ -330,41 +346,26 @@ def wlUser : Workload :=
     saved := .none, ctl := .none, minReadySeconds := 0, paused := true,
     progressDeadlineSeconds := some 600, ru := some ⟨some (pct 25), some (pct 25)⟩ }
 
-/-- **`hpaListFault`** (Initialize) — the List of `autoscaling/v2` HPAs fails during `Initialize`: the workload is
-    taken under control with its HPA still active, and no later attempt disables it. -/
-theorem retry_converges_full_FALSE_listFault :
-    let w := worldOf wlUser [theHPA 0] []
+/-- 5ba1baa: a failing List of HPAs makes `Initialize` / `Finalize` fail instead of skipping the HPA -/
+example :
     let f : Fault := { noFault with listV2 := true }
-    let o1 := outOf (cpInitialize .deployment w (brOf 0) f)
-    let o2 := outOf (cpInitialize .deployment o1.world (brOf 0) noFault)
-    let o3 := outOf (cpInitialize .deployment w (brOf 0) noFault)
-    gListFault f = true ∧ o1.res = .ok ∧ retryConverges o2 o3 = false ∧
-    o2.world.hpaV2 = [theHPA 0] ∧ o3.world.hpaV2 = [theHPA 1] := by
+    (outOf (cpInitialize .deployment (worldOf wlUser [theHPA 0] []) (brOf 0) f)).res = .err ∧
+    (outOf (cpInitialize .deployment (worldOf wlUser [theHPA 0] []) (brOf 0) f)).writes = 0 ∧
+    (outOf (cpFinalize .deployment (worldOf { wlUser with paused := false } [] [theHPA 1]) (brOf 0)
+      { noFault with listV1 := true })).res = .err := by
   decide
 
-/-- **`hpaListFault`** (Initialize, one call) — … the successful `Initialize` itself leaves the HPA enabled -/
-theorem init_disables_hpa_full_FALSE :
-    let w := worldOf wlUser [theHPA 0] []
-    let f : Fault := { noFault with listV2 := true }
-    gListFault f = true ∧ initDisablesHPA w (brOf 0) (outOf (cpInitialize .deployment w (brOf 0) f)) = false := by
-  decide
-
-/-- **`hpaNoApiVersion`** — an HPA of the namespace whose `scaleTargetRef` has no `apiVersion` (it targets some other
-    workload): `Initialize` panics. -/
-theorem no_panic_full_FALSE :
-    let wl := { wlInitialised with saved := .none, ctl := .none }
-    let w := worldOf wl [] [{ av := .absent, kindSame := false, name := none }]
-    gNoApiVersion w = true ∧ panicAllowed .init w (brOf 0) = false ∧
-    (match cpInitialize .deployment w (brOf 0) noFault with
-     | .panic => true
-     | .val _ => false) = true := by
+/-- 4f836ab: an HPA of the namespace without `apiVersion` is simply not a match -/
+example :
+    let w := worldOf wlUser [] [{ av := .absent, kindSame := false, name := none }, theHPA 0]
+    let o := outOf (cpInitialize .deployment w (brOf 0) noFault)
+    o.res = .ok ∧ o.world.hpaV1 = [{ av := .absent, kindSame := false, name := none }, theHPA 1] := by
   decide
 
 /-! ## non-vacuity (tests on literals) -/
 
 /-- a complete release on a Deployment with an HPA and a stable ReplicaSet: `Initialize` under a fault after its
-    first write, `Initialize` again, two `UpgradeBatch`es, `Finalize` while pods are not ready (retry), pods become
-    ready … the hypotheses of `finalize_restores_original` hold and its conclusion is the non-trivial one -/
+    first write, `Initialize` again, two `UpgradeBatch`es with status changes in between -/
 def exampleFresh : Workload :=
   { replicas := some 10, deleting := false, paused := true, minReadySeconds := 5, progressDeadlineSeconds := some 600,
     stype := .expected, ru := some { maxSurge := some (pct 20), maxUnavailable := some (int 1) }, partition := none,
@@ -377,20 +378,26 @@ def exampleHistory : List Ev :=
    .call .upgrade (brOf 0) noFault, .status (st 15 10 5 10 0),
    .call .upgrade { brOf 0 with currentBatch := 1 } noFault, .status (st 20 20 10 10 0)]
 
-example : guardFree .deployment exampleWorld exampleHistory = true := by decide
-
 /-- after the history: surge `100%`, un-paused, HPA disabled, stable ReplicaSet held -/
 example : (run .deployment exampleWorld exampleHistory).map
     (fun w => (w.wl.map (fun wl => (wl.paused, ruSurge wl.ru, wl.minReadySeconds == maxReady)), w.hpaV2, w.rss)) =
     some (some (false, some (pct 100), true), [theHPA 1], [⟨false, maxReady⟩, ⟨false, 0⟩]) := by decide
 
-/-- `Finalize` with pods still unavailable asks for a retry; once they are available a repeated `Finalize` — here the
-    CloneSet control, which re-reads the status — reports success with everything restored -/
+/-- `Finalize` with pods still unavailable asks for a retry (the hypotheses of `finalize_restores_original` /
+    `finalize_completes` are about worlds like this one) -/
 example :
     let w := outOf (match run .deployment exampleWorld exampleHistory with
       | some w => .val ⟨w, .ok, 0, none⟩
       | none => .panic)
     (outOf (cpFinalize .deployment w.world { brOf 0 with currentBatch := 1 } noFault)).res = .retry := by decide
+
+/-- … and after the pods became available it succeeds with the original `20%` / `1` / `5` back and the HPA enabled -/
+example :
+    let r := run .deployment exampleWorld (exampleHistory ++ [.status (st 10 10 10 10 0),
+        .call .fin { brOf 0 with currentBatch := 1 } noFault])
+    r.map (fun w => w.wl.map (fun wl => (wl.saved, wl.minReadySeconds, ruSurge wl.ru, ruUnavailable wl.ru))) =
+      some (some (Saved.none, 5, some (pct 20), some (int 1))) ∧
+    r.map (·.hpaV2) = some [theHPA 0] := by decide
 
 example : finalizeDone exampleWorld (brOf 0) ⟨exampleWorld, .ok, 0, none⟩ = true := by decide
 
@@ -402,12 +409,21 @@ example : (outOf (cpUpgradeBatch .deployment (worldOf wlInitialised [] [])
 example : expInv .deployment 5 exampleWorld = true ∧
     progressRun .deployment 5 exampleWorld (exampleHistory.take 4) = true := by decide
 
-/-- `retry_converges_partial` on a concrete faulty attempt that really is cut short and really is completed -/
+/-- `retry_converges` on a concrete faulty attempt that really is cut short and really is completed -/
 example :
     let f : Fault := { noFault with write := some 1 }
     let o1 := outOf (cpInitialize .deployment exampleWorld (brOf 0) f)
     let o2 := outOf (cpInitialize .deployment o1.world (brOf 0) noFault)
     let o3 := outOf (cpInitialize .deployment exampleWorld (brOf 0) noFault)
     o1.res = .err ∧ o1.writes = 1 ∧ o2.res = .ok ∧ o2.writes = 2 ∧ retryConverges o2 o3 = true := by decide
+
+/-- … and on a `Finalize` whose second patch fails: the retry removes the annotation -/
+example :
+    let w := worldOf { wlInitialised with status := st 10 10 10 10 0 } [] [theHPA 1]
+    let f : Fault := { noFault with write := some 2 }
+    let o1 := outOf (cpFinalize .deployment w (brOf 0) f)
+    let o2 := outOf (cpFinalize .deployment o1.world (brOf 0) noFault)
+    let o3 := outOf (cpFinalize .deployment w (brOf 0) noFault)
+    o1.res = .err ∧ o1.writes = 2 ∧ o2.res = .ok ∧ retryConverges o2 o3 = true := by decide
 
 end RV.Props.CtlBlueGreen
